@@ -78,7 +78,7 @@ CHECKS = {
     "C20": ("exploration",
             "exhaustive enumeration of every calendar date 1900..2154 against all pattern classes (datetime/calendar oracle) + Hypothesis schedules evaluated at every minute against a direct reference interpreter of clause 12.24 + timer-driven multi-day runs under virtual time",
             "Every date of 255 years is matched against ~300 date patterns, 1200 week-n-day patterns and ~70 closed / open-ended ranges and compared with predicates written on python's calendar; generated schedules (effective periods, weekly lists with Null entries, up to four prioritised exceptions with date / range / week-n-day / calendar-reference periods, four datatypes) are evaluated at every configured time +-1/100 s and at every minute of sampled days against a direct interpreter of the clause, and the reported next-transition time is checked exactly: the reference value must be constant up to it; real LocalScheduleObjects are then run by their own timer for 3..10 virtual days across the edges of the effective period, comparing presentValue every minute and requiring the interpreter task to stay armed.",
-            "TZ=UTC; sorted distinct time-values, distinct exception priorities, fully specified or fully open range ends (the domain the statement implies); timer-driven runs use whole-minute transition times; the value outside the effective period is not judged."),
+            "TZ=UTC (plus timer-driven runs in a daylight-saving zone); sorted distinct time-values, distinct exception priorities, fully specified or fully open range ends (the domain the statement implies); timer-driven runs use whole-minute transition times; the value outside the effective period is not judged; runs in the EST5EDT zone do not judge the three hours on either side of a clock change."),
     "C06": ("exploration",
             "Hypothesis-generated loop-free internetworks x generated message lists (cold and warm, bursts) on real NSAP/NSE stations and multi-port routers; oracle derived from the topology graph, wire monitor on an independent NPCI decoder",
             "Random bipartite trees of 2..8 networks with routers of 2..4 ports and stations that do or do not know their network number carry unicasts, remote broadcasts, global and local broadcasts - each sent cold (path discovery needed) and warm, also as same-instant bursts to one undiscovered network; the multiset of (station, token) handed above the network layer must equal the graph-derived recipient set exactly, the source address shown must route a reply back to the originator alone, and every LAN frame carrying the token must have hop count 255 - router distance and be emitted only by the router on the path from the source. Injected hop counts 0..3 must die out after as many hops; rings of 3 and 4 networks must reach quiescence within a frame bound for global, remote-broadcast and remote-unicast traffic.",
